@@ -4,7 +4,7 @@
 # The official run (tools/seeded_run.sh) applies the patch to /repo itself.
 set -u
 ID=$1; NAME=$2; shift 2; CHECKS=${*:-$ID}
-SRC=/tmp/mutwork/$ID/$NAME; case $NAME in n*) SRC=/tmp/mutwork2/$ID/$NAME;; esac; [ -d /verif/seeded/$ID/$NAME ] && SRC=/verif/seeded/$ID/$NAME
+SRC=/tmp/mutwork/$ID/$NAME; case $NAME in n*) SRC=/tmp/mutwork2/$ID/$NAME;; p*) SRC=/tmp/mutwork3/$ID/$NAME;; esac; [ -d /verif/seeded/$ID/$NAME ] && SRC=/verif/seeded/$ID/$NAME
 WT=/tmp/mut/try_$ID
 git -C /repo worktree remove --force $WT >/dev/null 2>&1; git -C /repo worktree add --detach $WT HEAD >/dev/null 2>&1
 if ! git -C $WT apply $SRC/patch.diff; then echo "[$ID/$NAME] patch does not apply"; git -C /repo worktree remove --force $WT; exit 3; fi
